@@ -116,6 +116,9 @@ class ExprBuilder:
                         if s2["k"] == "assign" and s2["rv"]["k"] == "use" and "def" in s2["rv"]["a"].get("const", {}) \
                                 and "promoted" not in s2["rv"]["a"]["const"]:
                             return ("ref", ("def", s2["rv"]["a"]["const"]["def"]))
+                    for _, _, s2 in pb.stmts():
+                        if s2["k"] == "assign" and s2["rv"]["k"] == "use" and "val" in s2["rv"]["a"].get("const", {}):
+                            return ("ref", ("const", s2["rv"]["a"]["const"]["val"]))
                 return ("def", pid)
             if "def" in c:
                 return ("def", c["def"])
